@@ -70,6 +70,8 @@ template <> struct Cod<int> : CodInt<int> { static const char* name() { return "
 template <> struct Cod<long> : CodInt<long> { static const char* name() { return "i64"; } };
 template <> struct Cod<long long> : CodInt<long long> { static const char* name() { return "i64"; } };
 template <> struct Cod<std::size_t> : CodInt<std::size_t> { static const char* name() { return "u64"; } };
+template <> struct Cod<unsigned> : CodInt<unsigned> { static const char* name() { return "u32"; } };
+template <> struct Cod<short> : CodInt<short> { static const char* name() { return "i16"; } };
 template <> struct Cod<bool> {
   static const char* name() { return "b"; }
   static bool parse(const std::string& s) { return s == "1"; }
@@ -138,22 +140,30 @@ template <class T> bool validBin(const std::string& op, T a, T b) {
   else if constexpr (std::is_same_v<T, bool>) {
     if (op == "div" || op == "mod") return b;
     return true;
+  } else if constexpr (std::is_unsigned_v<T>) {
+    // unsigned arithmetic wraps; only division by zero and oversized shift counts are undefined
+    if (op == "div" || op == "mod") return b != 0;
+    if (op == "shl" || op == "shr") return b < (T)(8 * sizeof(T));
+    return true;
   } else {
+    // the operation happens in the promoted type P (int for short); the result is converted back to T, which wraps
+    using P = decltype(+a);
     using W = __int128;
-    const W lo = std::numeric_limits<T>::min(), hi = std::numeric_limits<T>::max();
+    const W lo = std::numeric_limits<P>::min(), hi = std::numeric_limits<P>::max();
     W r = 0;
     if (op == "add") r = (W)a + b;
     else if (op == "sub") r = (W)a - b;
     else if (op == "mul") r = (W)a * b;
-    else if (op == "div" || op == "mod") { if (b == 0) return false; if (a == lo && b == -1) return false; return true; }
-    else if (op == "shl") { if (b < 0 || b >= (T)(8 * sizeof(T))) return false; if (a < 0) return false; r = (W)a << (int)b; }
-    else if (op == "shr") { return b >= 0 && b < (T)(8 * sizeof(T)); }
+    else if (op == "div" || op == "mod") { if (b == 0) return false; if ((W)a == lo && b == -1) return false; return true; }
+    else if (op == "shl") { if (b < 0 || b >= (T)(8 * sizeof(P))) return false; if (a < 0) return false; r = (W)a << (int)b; }
+    else if (op == "shr") { return b >= 0 && b < (T)(8 * sizeof(P)); }
     else return true;
     return lo <= r && r <= hi;
   }
 }
 template <class T> bool validUn(const std::string& op, T a) {
-  if constexpr (std::is_floating_point_v<T> || std::is_same_v<T, bool>) return true;
+  if constexpr (std::is_floating_point_v<T> || std::is_same_v<T, bool> || std::is_unsigned_v<T>) return true;
+  else if constexpr (sizeof(T) < sizeof(int)) return true;   // computed in int, converted back (wraps)
   else {
     if (op == "neg" || op == "predec" || op == "postdec") return a != std::numeric_limits<T>::min();
     if (op == "preinc" || op == "postinc") return a != std::numeric_limits<T>::max();
@@ -356,16 +366,28 @@ template <class V> struct Kern {
 };
 
 template <class T> const KernTab<T>* kernFor(const std::string& shape) {
-  if (shape == "1") return Kern<LoopSIMD<T, 1>>::tab();
-  if (shape == "2") return Kern<LoopSIMD<T, 2>>::tab();
-  if (shape == "4") return Kern<LoopSIMD<T, 4>>::tab();
-  if (shape == "8") return Kern<LoopSIMD<T, 8>>::tab();
-  if constexpr (std::is_same_v<T, double> || std::is_same_v<T, int> || std::is_same_v<T, bool>) {
-    if (shape == "2x2") return Kern<LoopSIMD<LoopSIMD<T, 2>, 2>>::tab();
-    if (shape == "4x2") return Kern<LoopSIMD<LoopSIMD<T, 2>, 4>>::tab();
-    if (shape == "2x4") return Kern<LoopSIMD<LoopSIMD<T, 4>, 2>>::tab();
+  if constexpr (std::is_same_v<T, unsigned>) {
+    if (shape == "2") return Kern<LoopSIMD<T, 2>>::tab();
+    if (shape == "4") return Kern<LoopSIMD<T, 4>>::tab();
+    if (shape == "8") return Kern<LoopSIMD<T, 8>>::tab();
+    return nullptr;
+  } else if constexpr (std::is_same_v<T, short>) {
+    if (shape == "2") return Kern<LoopSIMD<T, 2>>::tab();
+    if (shape == "4") return Kern<LoopSIMD<T, 4>>::tab();
+    return nullptr;
+  } else {
+    if (shape == "1") return Kern<LoopSIMD<T, 1>>::tab();
+    if (shape == "2") return Kern<LoopSIMD<T, 2>>::tab();
+    if (shape == "4") return Kern<LoopSIMD<T, 4>>::tab();
+    if (shape == "8") return Kern<LoopSIMD<T, 8>>::tab();
+    if constexpr (std::is_same_v<T, double> || std::is_same_v<T, int> || std::is_same_v<T, bool>) {
+      if (shape == "3") return Kern<LoopSIMD<T, 3>>::tab();
+      if (shape == "2x2") return Kern<LoopSIMD<LoopSIMD<T, 2>, 2>>::tab();
+      if (shape == "4x2") return Kern<LoopSIMD<LoopSIMD<T, 2>, 4>>::tab();
+      if (shape == "2x4") return Kern<LoopSIMD<LoopSIMD<T, 4>, 2>>::tab();
+    }
+    return nullptr;
   }
-  return nullptr;
 }
 
 // plain lane buffer (std::vector<bool> has no data())
@@ -514,6 +536,8 @@ static Result execOpsT(const std::vector<std::string>& w) {
   if (T == "i32") return execOps<int>(w);
   if (T == "i64") return execOps<long>(w);
   if (T == "b") return execOps<bool>(w);
+  if (T == "u32") return execOps<unsigned>(w);
+  if (T == "i16") return execOps<short>(w);
   Result r; r.impl = "bad-op"; r.oracle = "ok trivial"; return r;
 }
 
@@ -548,10 +572,7 @@ Result execVec(const std::vector<std::string>& w) {
   using M = Simd::Mask<V>;
   constexpr std::size_t n = RawT<V>::n;
   static_assert(std::is_same_v<Simd::Scalar<V>, T>, "Simd::Scalar");
-  static_assert(Simd::lanes<V>() == n, "Simd::lanes");
   static_assert(std::is_same_v<ScalarOf<M>, bool> && RawT<M>::n == n, "Simd::Mask");
-  static_assert(std::is_same_v<ScalarOf<Simd::Rebind<long, V>>, long> && RawT<Simd::Rebind<long, V>>::n == n, "Simd::Rebind");
-  static_assert(std::is_same_v<Simd::Rebind<T, V>, V>, "Simd::Rebind to the own scalar is the identity");
   const std::string& kind = w.at(0);
   Result res;
   auto arg = [&](std::size_t i) -> const std::string& { return w.at(i); };
@@ -615,8 +636,10 @@ Result execVec(const std::vector<std::string>& w) {
     const V a = parseVec<V>(arg(4));
     if (l >= n) { res.impl = "bad-op"; res.oracle = "ok trivial"; return res; }
     T r = Simd::lane(l, a);
+    T rr = Simd::lane(l, V(a));   // the overload for rvalues
     res.impl = Cod<T>::show(r);
     if (!Cod<T>::same(r, RawT<V>::at(a, l))) res.oracle = "FAIL lane(" + std::to_string(l) + ") reads " + res.impl + ", stored " + Cod<T>::show(RawT<V>::at(a, l));
+    else if (!Cod<T>::same(rr, RawT<V>::at(a, l))) res.oracle = "FAIL lane(" + std::to_string(l) + ") of an rvalue reads " + Cod<T>::show(rr) + ", stored " + Cod<T>::show(RawT<V>::at(a, l));
     return res;
   }
   if (kind == "setlane") {
@@ -715,8 +738,14 @@ Result execVec(const std::vector<std::string>& w) {
     return noSuchOp();
   }
   if (kind == "lanes") {
-    res.impl = std::to_string(Simd::lanes<V>()) + " " + std::to_string(Simd::lanes(V(T(0))));
-    if (Simd::lanes<V>() != n) res.oracle = "FAIL lanes";
+    // lanes<V>(), lanes(v), and the type functions: lanes / scalar of Mask<V> and Rebind<long, V>, Rebind<Scalar<V>, V> == V
+    using RL = Simd::Rebind<long, V>;
+    res.impl = std::to_string(Simd::lanes<V>()) + " " + std::to_string(Simd::lanes(V(T(0)))) + " " + Cod<Simd::Scalar<V>>::name()
+               + " " + std::to_string(Simd::lanes<M>()) + " " + Cod<Simd::Scalar<M>>::name()
+               + " " + std::to_string(Simd::lanes<RL>()) + " " + Cod<Simd::Scalar<RL>>::name()
+               + " " + (std::is_same_v<Simd::Rebind<Simd::Scalar<V>, V>, V> ? "1" : "0");
+    if (Simd::lanes<V>() != n || Simd::lanes<M>() != n || Simd::lanes<RL>() != n || !std::is_same_v<Simd::Scalar<M>, bool>
+        || !std::is_same_v<Simd::Scalar<RL>, long>) res.oracle = "FAIL lanes / Scalar / Rebind";
     return res;
   }
   res.impl = "bad-op";
@@ -725,51 +754,76 @@ Result execVec(const std::vector<std::string>& w) {
 }
 
 // ------------------------------------------------------------------------------------------------
-// dense matrices of SIMD numbers versus the scalar matrix of every lane
+// dense matrices / vectors of SIMD numbers versus the scalar matrix / vector of every lane
 // ------------------------------------------------------------------------------------------------
-template <std::size_t S, int n>
-Result execMat(const std::string& what, bool piv, const std::vector<std::string>& ta, const std::vector<std::string>& tb) {
-  using V = LoopSIMD<double, S>;
-  using CD = Cod<double>;
-  Result res;
-  if (ta.size() != (std::size_t)n * n * S) throw std::runtime_error("matrix data size");
-  Dune::FieldMatrix<V, n, n> A;
-  std::array<Dune::FieldMatrix<double, n, n>, S> a;
-  for (int i = 0; i < n; ++i) for (int j = 0; j < n; ++j) for (std::size_t l = 0; l < S; ++l) {
-    double x = CD::parse(ta[(i * n + j) * S + l]);
-    static_cast<std::array<double, S>&>(A[i][j])[l] = x;
+// entry tokens are stored entry-major, lanes (storage order) innermost
+template <class V, class MatV, class MatS>
+void loadMat(const std::vector<std::string>& t, int r, int c, MatV& A, std::array<MatS, RawT<V>::n>& a) {
+  constexpr std::size_t S = RawT<V>::n;
+  if (t.size() != (std::size_t)r * c * S) throw std::runtime_error("matrix data size");
+  for (int i = 0; i < r; ++i) for (int j = 0; j < c; ++j) for (std::size_t l = 0; l < S; ++l) {
+    auto x = Cod<ScalarOf<V>>::parse(t[(i * c + j) * S + l]);
+    RawT<V>::at(A[i][j], l) = x;
     a[l][i][j] = x;
   }
-  auto rawv = [](const V& v, std::size_t l) { return static_cast<const std::array<double, S>&>(v)[l]; };
-  const bool needB = what == "solve" || what == "mv" || what == "mm";
-  Dune::FieldVector<V, n> b;
-  std::array<Dune::FieldVector<double, n>, S> bs;
-  Dune::FieldMatrix<V, n, n> B;
-  std::array<Dune::FieldMatrix<double, n, n>, S> Bs;
-  if (what == "mm") {
-    if (tb.size() != (std::size_t)n * n * S) throw std::runtime_error("second matrix data size");
-    for (int i = 0; i < n; ++i) for (int j = 0; j < n; ++j) for (std::size_t l = 0; l < S; ++l) {
-      double x = CD::parse(tb[(i * n + j) * S + l]);
-      static_cast<std::array<double, S>&>(B[i][j])[l] = x;
-      Bs[l][i][j] = x;
-    }
-  } else if (needB) {
-    if (tb.size() != (std::size_t)n * S) throw std::runtime_error("vector data size");
-    for (int i = 0; i < n; ++i) for (std::size_t l = 0; l < S; ++l) {
-      double x = CD::parse(tb[i * S + l]);
-      static_cast<std::array<double, S>&>(b[i])[l] = x;
-      bs[l][i] = x;
-    }
+}
+template <class V, class VecV, class VecS>
+void loadVec(const std::vector<std::string>& t, int n, VecV& b, std::array<VecS, RawT<V>::n>& bs) {
+  constexpr std::size_t S = RawT<V>::n;
+  if (t.size() != (std::size_t)n * S) throw std::runtime_error("vector data size");
+  for (int i = 0; i < n; ++i) for (std::size_t l = 0; l < S; ++l) {
+    auto x = Cod<ScalarOf<V>>::parse(t[i * S + l]);
+    RawT<V>::at(b[i], l) = x;
+    bs[l][i] = x;
   }
-  auto cmp = [&](const V& got, std::size_t l, double want, const std::string& where) {
-    if (res.oracle == "ok" && !CD::same(rawv(got, l), want))
-      res.oracle = "FAIL " + what + " " + where + " lane " + std::to_string(l) + " is " + CD::show(rawv(got, l)) + ", scalar algorithm on that lane's matrix gives " + CD::show(want);
-  };
-  auto showV = [&](const V& v) { std::string s; for (std::size_t l = 0; l < S; ++l) { if (l) s += ","; s += CD::show(rawv(v, l)); } return s; };
+}
+template <class V> std::string showLanesOf(const V& v) {
+  std::string s;
+  for (std::size_t l = 0; l < RawT<V>::n; ++l) { if (l) s += ","; s += Cod<ScalarOf<V>>::show(RawT<V>::at(v, l)); }
+  return s;
+}
+template <class V, class VecV> std::string showVecOf(const VecV& y, int n) {
+  std::string s = "[";
+  for (int i = 0; i < n; ++i) { if (i) s += ","; s += showLanesOf<V>(y[i]); }
+  return s + "]";
+}
+template <class V, class MatV> std::string showMatOf(const MatV& C, int r, int c) {
+  std::string s = "[";
+  for (int i = 0; i < r; ++i) for (int j = 0; j < c; ++j) { if (i || j) s += ","; s += showLanesOf<V>(C[i][j]); }
+  return s + "]";
+}
+// compares lane l of a SIMD value with the scalar run of that lane
+template <class V> struct LaneCmp {
+  Result& res;
+  const std::string& what;
+  void operator()(const V& got, std::size_t l, ScalarOf<V> want, const std::string& where) const {
+    using CD = Cod<ScalarOf<V>>;
+    if (res.oracle == "ok" && !CD::same(RawT<V>::at(got, l), want))
+      res.oracle = "FAIL " + what + " " + where + " lane " + std::to_string(l) + " is " + CD::show(RawT<V>::at(got, l)) + ", scalar algorithm on that lane's data gives " + CD::show(want);
+  }
+};
+
+template <class V, int n>
+Result execMat(const std::string& what, bool piv, const std::vector<std::string>& ta, const std::vector<std::string>& tb) {
+  using T = ScalarOf<V>;
+  constexpr std::size_t S = RawT<V>::n;
+  Result res;
+  Dune::FieldMatrix<V, n, n> A;
+  std::array<Dune::FieldMatrix<T, n, n>, S> a;
+  loadMat<V>(ta, n, n, A, a);
+  const bool needB = what == "solve" || what == "mv";
+  const bool needM = what == "mm" || what == "lmm";
+  Dune::FieldVector<V, n> b;
+  std::array<Dune::FieldVector<T, n>, S> bs;
+  Dune::FieldMatrix<V, n, n> B;
+  std::array<Dune::FieldMatrix<T, n, n>, S> Bs;
+  if (needM) loadMat<V>(tb, n, n, B, Bs);
+  else if (needB) loadVec<V>(tb, n, b, bs);
+  LaneCmp<V> cmp{res, what};
 
   if (what == "det") {
     V d = A.determinant(piv);
-    res.impl = "[" + showV(d) + "]";
+    res.impl = "[" + showLanesOf(d) + "]";
     for (std::size_t l = 0; l < S; ++l) cmp(d, l, a[l].determinant(piv), "result");
     return res;
   }
@@ -777,7 +831,7 @@ Result execMat(const std::string& what, bool piv, const std::vector<std::string>
     Dune::FieldVector<V, n> x;
     bool threw = false;
     try { A.solve(x, b, piv); } catch (Dune::FMatrixError&) { threw = true; }
-    std::array<Dune::FieldVector<double, n>, S> xs;
+    std::array<Dune::FieldVector<T, n>, S> xs;
     bool anyThrow = false;
     for (std::size_t l = 0; l < S; ++l) { try { a[l].solve(xs[l], bs[l], piv); } catch (Dune::FMatrixError&) { anyThrow = true; } }
     if (threw) {
@@ -785,9 +839,7 @@ Result execMat(const std::string& what, bool piv, const std::vector<std::string>
       if (!anyThrow) res.oracle = "FAIL solve reports a singular matrix although the scalar algorithm succeeds in every lane";
       return res;
     }
-    res.impl = "[";
-    for (int i = 0; i < n; ++i) { if (i) res.impl += ","; res.impl += showV(x[i]); }
-    res.impl += "]";
+    res.impl = showVecOf<V>(x, n);
     if (anyThrow) { res.oracle = "FAIL solve succeeds although the scalar algorithm reports a singular matrix in some lane"; return res; }
     for (int i = 0; i < n; ++i) for (std::size_t l = 0; l < S; ++l) cmp(x[i], l, xs[l][i], "x[" + std::to_string(i) + "]");
     return res;
@@ -804,9 +856,7 @@ Result execMat(const std::string& what, bool piv, const std::vector<std::string>
       if (!anyThrow) res.oracle = "FAIL invert reports a singular matrix although the scalar algorithm succeeds in every lane";
       return res;
     }
-    res.impl = "[";
-    for (int i = 0; i < n; ++i) for (int j = 0; j < n; ++j) { if (i || j) res.impl += ","; res.impl += showV(Ai[i][j]); }
-    res.impl += "]";
+    res.impl = showMatOf<V>(Ai, n, n);
     if (anyThrow) { res.oracle = "FAIL invert succeeds although the scalar algorithm reports a singular matrix in some lane"; return res; }
     for (int i = 0; i < n; ++i) for (int j = 0; j < n; ++j) for (std::size_t l = 0; l < S; ++l)
       cmp(Ai[i][j], l, ai[l][i][j], "entry[" + std::to_string(i) + "][" + std::to_string(j) + "]");
@@ -815,41 +865,410 @@ Result execMat(const std::string& what, bool piv, const std::vector<std::string>
   if (what == "mv") {
     Dune::FieldVector<V, n> y;
     A.mv(b, y);
-    res.impl = "[";
-    for (int i = 0; i < n; ++i) { if (i) res.impl += ","; res.impl += showV(y[i]); }
-    res.impl += "]";
-    for (std::size_t l = 0; l < S; ++l) { Dune::FieldVector<double, n> ys; a[l].mv(bs[l], ys); for (int i = 0; i < n; ++i) cmp(y[i], l, ys[i], "y[" + std::to_string(i) + "]"); }
+    res.impl = showVecOf<V>(y, n);
+    for (std::size_t l = 0; l < S; ++l) { Dune::FieldVector<T, n> ys; a[l].mv(bs[l], ys); for (int i = 0; i < n; ++i) cmp(y[i], l, ys[i], "y[" + std::to_string(i) + "]"); }
     return res;
   }
-  if (what == "mm") {
+  if (what == "mm" || what == "lmm") {
     auto C = A;
-    C.rightmultiply(B);
-    res.impl = "[";
-    for (int i = 0; i < n; ++i) for (int j = 0; j < n; ++j) { if (i || j) res.impl += ","; res.impl += showV(C[i][j]); }
-    res.impl += "]";
-    for (std::size_t l = 0; l < S; ++l) { auto c = a[l]; c.rightmultiply(Bs[l]); for (int i = 0; i < n; ++i) for (int j = 0; j < n; ++j) cmp(C[i][j], l, c[i][j], "entry[" + std::to_string(i) + "][" + std::to_string(j) + "]"); }
+    if (what == "mm") C.rightmultiply(B); else C.leftmultiply(B);
+    res.impl = showMatOf<V>(C, n, n);
+    for (std::size_t l = 0; l < S; ++l) {
+      auto c = a[l];
+      if (what == "mm") c.rightmultiply(Bs[l]); else c.leftmultiply(Bs[l]);
+      for (int i = 0; i < n; ++i) for (int j = 0; j < n; ++j) cmp(C[i][j], l, c[i][j], "entry[" + std::to_string(i) + "][" + std::to_string(j) + "]");
+    }
     return res;
   }
   if (what == "fnorm2" || what == "infnorm") {
     V r = what == "fnorm2" ? A.frobenius_norm2() : A.infinity_norm();
-    res.impl = "[" + showV(r) + "]";
+    res.impl = "[" + showLanesOf(r) + "]";
     for (std::size_t l = 0; l < S; ++l) cmp(r, l, what == "fnorm2" ? a[l].frobenius_norm2() : a[l].infinity_norm(), "result");
     return res;
   }
   return noSuchOp();
 }
 
-template <std::size_t S>
-Result execMatS(const std::string& what, int n, bool piv, const std::vector<std::string>& ta, const std::vector<std::string>& tb) {
-  switch (n) {
-    case 1: return execMat<S, 1>(what, piv, ta, tb);
-    case 2: return execMat<S, 2>(what, piv, ta, tb);
-    case 3: return execMat<S, 3>(what, piv, ta, tb);
-    case 4: return execMat<S, 4>(what, piv, ta, tb);
-    case 5: return execMat<S, 5>(what, piv, ta, tb);
-    case 6: return execMat<S, 6>(what, piv, ta, tb);
+// rectangular matrices: the matrix-vector kernels and the norms
+template <class V, int r, int c>
+Result execRect(const std::string& what, const std::vector<std::string>& ta, const std::vector<std::string>& tx,
+                const std::vector<std::string>& ty, const std::vector<std::string>& talpha) {
+  using T = ScalarOf<V>;
+  constexpr std::size_t S = RawT<V>::n;
+  Result res;
+  Dune::FieldMatrix<V, r, c> A;
+  std::array<Dune::FieldMatrix<T, r, c>, S> a;
+  loadMat<V>(ta, r, c, A, a);
+  LaneCmp<V> cmp{res, what};
+  if (what == "fnorm2" || what == "fnorm" || what == "infnorm" || what == "infnormr") {
+    V v = what == "fnorm2" ? A.frobenius_norm2() : what == "fnorm" ? A.frobenius_norm() : what == "infnorm" ? A.infinity_norm() : A.infinity_norm_real();
+    res.impl = "[" + showLanesOf(v) + "]";
+    for (std::size_t l = 0; l < S; ++l)
+      cmp(v, l, what == "fnorm2" ? a[l].frobenius_norm2() : what == "fnorm" ? a[l].frobenius_norm() : what == "infnorm" ? a[l].infinity_norm() : a[l].infinity_norm_real(), "result");
+    return res;
   }
-  Result r; r.impl = "bad-op"; r.oracle = "ok trivial"; return r;
+  const bool transposed = what == "mtv" || what == "umtv" || what == "mmtv" || what == "usmtv";
+  const bool plain = what == "mv" || what == "umv" || what == "mmv" || what == "usmv";
+  if (!transposed && !plain) return noSuchOp();
+  if (talpha.size() != S) throw std::runtime_error("alpha data size");
+  V alpha;
+  std::array<T, S> alphas;
+  for (std::size_t l = 0; l < S; ++l) { alphas[l] = Cod<T>::parse(talpha[l]); RawT<V>::at(alpha, l) = alphas[l]; }
+  if (plain) {
+    Dune::FieldVector<V, c> x; std::array<Dune::FieldVector<T, c>, S> xs; loadVec<V>(tx, c, x, xs);
+    Dune::FieldVector<V, r> y; std::array<Dune::FieldVector<T, r>, S> ys; loadVec<V>(ty, r, y, ys);
+    if (what == "mv") A.mv(x, y); else if (what == "umv") A.umv(x, y); else if (what == "mmv") A.mmv(x, y); else A.usmv(alpha, x, y);
+    res.impl = showVecOf<V>(y, r);
+    for (std::size_t l = 0; l < S; ++l) {
+      if (what == "mv") a[l].mv(xs[l], ys[l]); else if (what == "umv") a[l].umv(xs[l], ys[l]); else if (what == "mmv") a[l].mmv(xs[l], ys[l]); else a[l].usmv(alphas[l], xs[l], ys[l]);
+      for (int i = 0; i < r; ++i) cmp(y[i], l, ys[l][i], "y[" + std::to_string(i) + "]");
+    }
+  } else {
+    Dune::FieldVector<V, r> x; std::array<Dune::FieldVector<T, r>, S> xs; loadVec<V>(tx, r, x, xs);
+    Dune::FieldVector<V, c> y; std::array<Dune::FieldVector<T, c>, S> ys; loadVec<V>(ty, c, y, ys);
+    if (what == "mtv") A.mtv(x, y); else if (what == "umtv") A.umtv(x, y); else if (what == "mmtv") A.mmtv(x, y); else A.usmtv(alpha, x, y);
+    res.impl = showVecOf<V>(y, c);
+    for (std::size_t l = 0; l < S; ++l) {
+      if (what == "mtv") a[l].mtv(xs[l], ys[l]); else if (what == "umtv") a[l].umtv(xs[l], ys[l]); else if (what == "mmtv") a[l].mmtv(xs[l], ys[l]); else a[l].usmtv(alphas[l], xs[l], ys[l]);
+      for (int i = 0; i < c; ++i) cmp(y[i], l, ys[l][i], "y[" + std::to_string(i) + "]");
+    }
+  }
+  return res;
+}
+
+// vectors of SIMD numbers: norms, dot product, axpy
+template <class V, int n>
+Result execFVec(const std::string& what, const std::vector<std::string>& tv, const std::vector<std::string>& tw,
+                const std::vector<std::string>& talpha) {
+  using T = ScalarOf<V>;
+  constexpr std::size_t S = RawT<V>::n;
+  Result res;
+  Dune::FieldVector<V, n> v; std::array<Dune::FieldVector<T, n>, S> vs; loadVec<V>(tv, n, v, vs);
+  LaneCmp<V> cmp{res, what};
+  if (what == "one" || what == "oner" || what == "two2" || what == "two" || what == "inf" || what == "infr") {
+    auto f = [&](const auto& z) {
+      return what == "one" ? z.one_norm() : what == "oner" ? z.one_norm_real() : what == "two2" ? z.two_norm2() : what == "two" ? z.two_norm()
+             : what == "inf" ? z.infinity_norm() : z.infinity_norm_real();
+    };
+    V r = f(v);
+    res.impl = "[" + showLanesOf(r) + "]";
+    for (std::size_t l = 0; l < S; ++l) cmp(r, l, f(vs[l]), "result");
+    return res;
+  }
+  Dune::FieldVector<V, n> w; std::array<Dune::FieldVector<T, n>, S> ws; loadVec<V>(tw, n, w, ws);
+  if (what == "dot") {
+    V r = v * w;
+    res.impl = "[" + showLanesOf(r) + "]";
+    for (std::size_t l = 0; l < S; ++l) cmp(r, l, vs[l] * ws[l], "result");
+    return res;
+  }
+  if (what == "axpy") {
+    if (talpha.size() != S) throw std::runtime_error("alpha data size");
+    V alpha;
+    for (std::size_t l = 0; l < S; ++l) RawT<V>::at(alpha, l) = Cod<T>::parse(talpha[l]);
+    w.axpy(alpha, v);   // w += alpha * v
+    res.impl = showVecOf<V>(w, n);
+    for (std::size_t l = 0; l < S; ++l) { ws[l].axpy(RawT<V>::at(alpha, l), vs[l]); for (int i = 0; i < n; ++i) cmp(w[i], l, ws[l][i], "w[" + std::to_string(i) + "]"); }
+    return res;
+  }
+  return noSuchOp();
+}
+
+static Result badOp() { Result r; r.impl = "bad-op"; r.oracle = "ok trivial"; return r; }
+
+// the (shape, size) combinations that are instantiated; the generator draws from the same tables
+struct MatArgs { std::string what; int n; bool piv; std::vector<std::string> ta, tb; };
+template <class V, int... Ns> Result matSizes(const MatArgs& m) {
+  Result r = badOp();
+  (void)((m.n == Ns ? (r = execMat<V, Ns>(m.what, m.piv, m.ta, m.tb), true) : false) || ...);
+  return r;
+}
+static const std::map<std::string, std::vector<int>>& matTable() {
+  static const std::map<std::string, std::vector<int>> t = {
+      {"1", {1, 2, 3, 4, 5}}, {"2", {1, 2, 3, 4, 5, 6}}, {"3", {3, 4, 5}}, {"4", {1, 2, 3, 4, 5, 6}}, {"8", {2, 3, 5, 6}},
+      {"2x2", {2, 3, 4, 5}}, {"f4", {1, 2, 3, 4, 5}}};
+  return t;
+}
+static Result execMatShape(const std::string& shape, const MatArgs& m) {
+  if (shape == "1") return matSizes<LoopSIMD<double, 1>, 1, 2, 3, 4, 5>(m);
+  if (shape == "2") return matSizes<LoopSIMD<double, 2>, 1, 2, 3, 4, 5, 6>(m);
+  if (shape == "3") return matSizes<LoopSIMD<double, 3>, 3, 4, 5>(m);
+  if (shape == "4") return matSizes<LoopSIMD<double, 4>, 1, 2, 3, 4, 5, 6>(m);
+  if (shape == "8") return matSizes<LoopSIMD<double, 8>, 2, 3, 5, 6>(m);
+  if (shape == "2x2") return matSizes<LoopSIMD<LoopSIMD<double, 2>, 2>, 2, 3, 4, 5>(m);
+  if (shape == "f4") return matSizes<LoopSIMD<float, 4>, 1, 2, 3, 4, 5>(m);
+  return badOp();
+}
+
+struct RectArgs { std::string what; int r, c; std::vector<std::string> ta, tx, ty, talpha; };
+static const std::vector<std::pair<int, int>>& rectSizes() {
+  static const std::vector<std::pair<int, int>> t = {{2, 3}, {3, 2}, {1, 4}, {3, 3}};
+  return t;
+}
+static const std::vector<std::string>& rectShapes() {
+  static const std::vector<std::string> t = {"2", "4", "2x2", "f4"};
+  return t;
+}
+template <class V> Result rectSizesOf(const RectArgs& m) {
+  if (m.r == 2 && m.c == 3) return execRect<V, 2, 3>(m.what, m.ta, m.tx, m.ty, m.talpha);
+  if (m.r == 3 && m.c == 2) return execRect<V, 3, 2>(m.what, m.ta, m.tx, m.ty, m.talpha);
+  if (m.r == 1 && m.c == 4) return execRect<V, 1, 4>(m.what, m.ta, m.tx, m.ty, m.talpha);
+  if (m.r == 3 && m.c == 3) return execRect<V, 3, 3>(m.what, m.ta, m.tx, m.ty, m.talpha);
+  return badOp();
+}
+static Result execRectShape(const std::string& shape, const RectArgs& m) {
+  if (shape == "2") return rectSizesOf<LoopSIMD<double, 2>>(m);
+  if (shape == "4") return rectSizesOf<LoopSIMD<double, 4>>(m);
+  if (shape == "2x2") return rectSizesOf<LoopSIMD<LoopSIMD<double, 2>, 2>>(m);
+  if (shape == "f4") return rectSizesOf<LoopSIMD<float, 4>>(m);
+  return badOp();
+}
+
+struct FVecArgs { std::string what; int n; std::vector<std::string> tv, tw, talpha; };
+static const std::vector<int>& fvecSizes() { static const std::vector<int> t = {1, 3, 4}; return t; }
+template <class V> Result fvecSizesOf(const FVecArgs& m) {
+  if (m.n == 1) return execFVec<V, 1>(m.what, m.tv, m.tw, m.talpha);
+  if (m.n == 3) return execFVec<V, 3>(m.what, m.tv, m.tw, m.talpha);
+  if (m.n == 4) return execFVec<V, 4>(m.what, m.tv, m.tw, m.talpha);
+  return badOp();
+}
+static Result execFVecShape(const std::string& shape, const FVecArgs& m) {
+  if (shape == "2") return fvecSizesOf<LoopSIMD<double, 2>>(m);
+  if (shape == "4") return fvecSizesOf<LoopSIMD<double, 4>>(m);
+  if (shape == "2x2") return fvecSizesOf<LoopSIMD<LoopSIMD<double, 2>, 2>>(m);
+  if (shape == "f4") return fvecSizesOf<LoopSIMD<float, 4>>(m);
+  return badOp();
+}
+
+// ------------------------------------------------------------------------------------------------
+// A minimal SIMD type that provides only what the abstraction layer demands (lane, anyTrue, the operators) and
+// inherits everything else from dune/common/simd/defaults.hh: allTrue/anyFalse/allFalse, max/min (horizontal),
+// mask, maskOr, maskAnd, implCast, broadcast.
+// ------------------------------------------------------------------------------------------------
+namespace dvmini {
+template <class T, std::size_t S> struct Vec {
+  std::array<T, S> a;
+  Vec() = default;
+  Vec(T x) { a.fill(x); }
+};
+template <class T, std::size_t S> Vec<bool, S> operator!=(const Vec<T, S>& x, const Vec<T, S>& y) {
+  Vec<bool, S> r; for (std::size_t i = 0; i < S; ++i) r.a[i] = x.a[i] != y.a[i]; return r;
+}
+template <class T, std::size_t S> Vec<bool, S> operator!(const Vec<T, S>& x) {
+  Vec<bool, S> r; for (std::size_t i = 0; i < S; ++i) r.a[i] = !x.a[i]; return r;
+}
+template <std::size_t S> Vec<bool, S> operator||(const Vec<bool, S>& x, const Vec<bool, S>& y) {
+  Vec<bool, S> r; for (std::size_t i = 0; i < S; ++i) r.a[i] = x.a[i] || y.a[i]; return r;
+}
+template <std::size_t S> Vec<bool, S> operator&&(const Vec<bool, S>& x, const Vec<bool, S>& y) {
+  Vec<bool, S> r; for (std::size_t i = 0; i < S; ++i) r.a[i] = x.a[i] && y.a[i]; return r;
+}
+}  // namespace dvmini
+namespace Dune { namespace Simd { namespace Overloads {
+template <class T, std::size_t S> struct ScalarType<dvmini::Vec<T, S>> { using type = T; };
+template <class U, class T, std::size_t S> struct RebindType<U, dvmini::Vec<T, S>> { using type = dvmini::Vec<U, S>; };
+template <class T, std::size_t S> struct LaneCount<dvmini::Vec<T, S>> : index_constant<S> {};
+template <class T, std::size_t S> T lane(ADLTag<5>, std::size_t l, const dvmini::Vec<T, S>& v) { return v.a[l]; }
+template <class T, std::size_t S> T& lane(ADLTag<5>, std::size_t l, dvmini::Vec<T, S>& v) { return v.a[l]; }
+template <std::size_t S> bool anyTrue(ADLTag<5>, const dvmini::Vec<bool, S>& m) {
+  for (std::size_t i = 0; i < S; ++i) if (m.a[i]) return true;
+  return false;
+}
+}}}  // namespace Dune::Simd::Overloads
+
+template <class T, std::size_t S>
+Result execMini(const std::vector<std::string>& w) {
+  // mini <what> <T> <S> args...
+  using V = dvmini::Vec<T, S>;
+  using M = dvmini::Vec<bool, S>;
+  static_assert(std::is_same_v<Simd::Mask<V>, M>);
+  const std::string& what = w.at(1);
+  Result res;
+  auto parse = [&](const std::string& tok) {
+    auto ts = listToks(tok);
+    if (ts.size() != S) throw std::runtime_error("lane count mismatch in " + tok);
+    V v; for (std::size_t k = 0; k < S; ++k) v.a[k] = Cod<T>::parse(ts[k]);
+    return v;
+  };
+  auto showA = [&](const auto& v) {
+    using E = std::decay_t<decltype(v.a[0])>;
+    std::string s = "["; for (std::size_t k = 0; k < S; ++k) { if (k) s += ","; s += Cod<E>::show(v.a[k]); } return s + "]";
+  };
+  if (what == "anyTrue" || what == "allTrue" || what == "anyFalse" || what == "allFalse") {
+    if constexpr (!std::is_same_v<T, bool>) return noSuchOp();
+    else {
+      const V m = parse(w.at(4));
+      bool anyT = false, anyF = false;
+      for (std::size_t k = 0; k < S; ++k) { if (m.a[k]) anyT = true; else anyF = true; }
+      bool r, e;
+      if (what == "anyTrue") { r = Simd::anyTrue(m); e = anyT; }
+      else if (what == "allTrue") { r = Simd::allTrue(m); e = !anyF; }
+      else if (what == "anyFalse") { r = Simd::anyFalse(m); e = anyF; }
+      else { r = Simd::allFalse(m); e = !anyT; }
+      res.impl = Cod<bool>::show(r);
+      if (r != e) res.oracle = "FAIL default " + what + " gives " + res.impl;
+      return res;
+    }
+  }
+  if (what == "mask") {
+    const V a = parse(w.at(4));
+    M r = Simd::mask(a);
+    res.impl = showA(r);
+    for (std::size_t k = 0; k < S; ++k) if (r.a[k] != (a.a[k] != T(0))) { res.oracle = "FAIL lane " + std::to_string(k) + " of default mask"; break; }
+    return res;
+  }
+  if (what == "maskor" || what == "maskand") {
+    const V a = parse(w.at(4)), b = parse(w.at(5));
+    M r = what == "maskor" ? Simd::maskOr(a, b) : Simd::maskAnd(a, b);
+    res.impl = showA(r);
+    for (std::size_t k = 0; k < S; ++k) {
+      bool x = a.a[k] != T(0), y = b.a[k] != T(0);
+      if (r.a[k] != (what == "maskor" ? (x || y) : (x && y))) { res.oracle = "FAIL lane " + std::to_string(k) + " of default " + what; break; }
+    }
+    return res;
+  }
+  if (what == "hmax" || what == "hmin") {
+    const bool mx = what == "hmax";
+    const V a = parse(w.at(4));
+    T r = mx ? Simd::max(a) : Simd::min(a);
+    res.impl = Cod<T>::show(r);
+    bool isLane = false, anyNaN = false, beaten = false;
+    for (std::size_t k = 0; k < S; ++k) {
+      T x = a.a[k];
+      if (Cod<T>::same(x, r)) isLane = true;
+      if (x != x) anyNaN = true;
+      if (mx ? (r < x) : (x < r)) beaten = true;
+    }
+    if (!isLane) res.oracle = "FAIL default horizontal " + what + " returns a value that is in no lane";
+    else if (!anyNaN && beaten) res.oracle = "FAIL default horizontal " + what + " is not extremal";
+    return res;
+  }
+  if (what == "bcast") {
+    T x = Cod<T>::parse(w.at(4));
+    V r = Simd::broadcast<V>(x);
+    res.impl = showA(r);
+    for (std::size_t k = 0; k < S; ++k) if (!Cod<T>::same(r.a[k], x)) { res.oracle = "FAIL default broadcast: lane " + std::to_string(k); break; }
+    return res;
+  }
+  if (what == "implcast") {
+    // to LoopSIMD and back, both through the lane-by-lane default of defaults.hh
+    const V a = parse(w.at(4));
+    using LV = LoopSIMD<T, S>;
+    LV lv = Simd::implCast<LV>(a);
+    V back = Simd::implCast<V>(lv);
+    res.impl = showVec(lv) + " " + showA(back);
+    for (std::size_t k = 0; k < S; ++k)
+      if (!Cod<T>::same(RawT<LV>::at(lv, k), a.a[k]) || !Cod<T>::same(back.a[k], a.a[k])) { res.oracle = "FAIL default implCast moved lane " + std::to_string(k); break; }
+    return res;
+  }
+  return noSuchOp();
+}
+
+// LoopSIMD of std::complex: the second overload of real() / imag(), and the operators on complex lanes
+template <std::size_t S>
+Result execCplx(const std::vector<std::string>& w) {
+  // cplx <what> <S> <[re0,im0,re1,im1,...]> [<second operand>]
+  using C = std::complex<double>;
+  using V = LoopSIMD<C, S>;
+  using CD = Cod<double>;
+  const std::string& what = w.at(1);
+  Result res;
+  auto parse = [&](const std::string& tok) {
+    auto ts = listToks(tok);
+    if (ts.size() != 2 * S) throw std::runtime_error("lane count mismatch in " + tok);
+    V v; for (std::size_t k = 0; k < S; ++k) static_cast<std::array<C, S>&>(v)[k] = C(CD::parse(ts[2 * k]), CD::parse(ts[2 * k + 1]));
+    return v;
+  };
+  auto raw = [](const V& v, std::size_t k) { return static_cast<const std::array<C, S>&>(v)[k]; };
+  auto showC = [&](const V& v) { std::string s = "["; for (std::size_t k = 0; k < S; ++k) { if (k) s += ","; s += CD::show(raw(v, k).real()) + "," + CD::show(raw(v, k).imag()); } return s + "]"; };
+  auto sameC = [](C x, C y) { return CD::same(x.real(), y.real()) && CD::same(x.imag(), y.imag()); };
+  const V a = parse(w.at(3));
+  if (what == "real" || what == "imag") {
+    LoopSIMD<double, S> r = what == "real" ? real(a) : imag(a);
+    res.impl = showVec(r);
+    for (std::size_t k = 0; k < S; ++k) {
+      double e = what == "real" ? std::real(raw(a, k)) : std::imag(raw(a, k));
+      if (!CD::same(static_cast<const std::array<double, S>&>(r)[k], e)) { res.oracle = "FAIL lane " + std::to_string(k) + " of " + what + " of a complex vector"; break; }
+    }
+    return res;
+  }
+  if (what == "neg") {
+    V r = -a;
+    res.impl = showC(r);
+    for (std::size_t k = 0; k < S; ++k) if (!sameC(raw(r, k), -raw(a, k))) { res.oracle = "FAIL lane " + std::to_string(k) + " of complex negation"; break; }
+    return res;
+  }
+  const V b = parse(w.at(4));
+  if (what == "add" || what == "sub") {
+    V r = what == "add" ? a + b : a - b;
+    res.impl = showC(r);
+    for (std::size_t k = 0; k < S; ++k) {
+      C e = what == "add" ? raw(a, k) + raw(b, k) : raw(a, k) - raw(b, k);
+      if (!sameC(raw(r, k), e)) { res.oracle = "FAIL lane " + std::to_string(k) + " of complex " + what; break; }
+    }
+    return res;
+  }
+  if (what == "eq" || what == "ne") {
+    Simd::Mask<V> r = what == "eq" ? (a == b) : (a != b);
+    res.impl = showVec(r);
+    for (std::size_t k = 0; k < S; ++k) {
+      bool e = what == "eq" ? raw(a, k) == raw(b, k) : raw(a, k) != raw(b, k);
+      if (RawT<Simd::Mask<V>>::at(r, k) != e) { res.oracle = "FAIL lane " + std::to_string(k) + " of complex " + what; break; }
+    }
+    return res;
+  }
+  return noSuchOp();
+}
+
+// the converting constructor between differently aligned LoopSIMDs, and operators on the over-aligned type
+static Result execRealign(const std::vector<std::string>& w) {
+  // realign <[4 doubles]> <[4 doubles]>
+  using V = LoopSIMD<double, 4>;
+  using VA = LoopSIMD<double, 4, 64>;
+  static_assert(alignof(VA) == 64);
+  const V a = parseVec<V>(w.at(1)), b = parseVec<V>(w.at(2));
+  VA wa(a), wb(b);
+  VA sum = wa + wb;
+  Simd::Mask<VA> lt = wa < wb;
+  VA sel = Simd::cond(lt, wa, wb);
+  V back(sel);
+  Result res;
+  res.impl = showVec(V(wa)) + " " + showVec(V(sum)) + " " + showVec(back);
+  for (std::size_t k = 0; k < 4; ++k) {
+    double x = RawT<V>::at(a, k), y = RawT<V>::at(b, k);
+    if (!Cod<double>::same(RawT<VA>::at(wa, k), x) || !Cod<double>::same(RawT<VA>::at(sum, k), x + y) || !Cod<double>::same(RawT<V>::at(back, k), x < y ? x : y)) {
+      res.oracle = "FAIL lane " + std::to_string(k) + " of the over-aligned LoopSIMD"; break;
+    }
+  }
+  return res;
+}
+
+// shifts whose count vector has another element type (and alignment) than the shifted vector
+static Result execShiftMix(const std::vector<std::string>& w) {
+  // shiftmix <shl|shr> <vv|vs> <[4 longs]> <[4 ints] | int>
+  using V = LoopSIMD<long, 4>;
+  using U = LoopSIMD<int, 4, 32>;
+  const bool shl = w.at(1) == "shl";
+  const bool vv = w.at(2) == "vv";
+  const V a = parseVec<V>(w.at(3));
+  std::array<int, 4> cnt;
+  if (vv) { auto ts = listToks(w.at(4)); if (ts.size() != 4) throw std::runtime_error("count size"); for (int k = 0; k < 4; ++k) cnt[k] = Cod<int>::parse(ts[k]); }
+  else cnt.fill(Cod<int>::parse(w.at(4)));
+  for (int k = 0; k < 4; ++k) {
+    long x = RawT<V>::at(a, k);
+    if (cnt[k] < 0 || cnt[k] >= 64) return invalidInput();
+    if (shl && (x < 0 || (cnt[k] > 0 && x > (std::numeric_limits<long>::max() >> cnt[k])))) return invalidInput();
+  }
+  V r;
+  if (vv) { U c; for (int k = 0; k < 4; ++k) RawT<U>::at(c, k) = cnt[k]; r = shl ? (a << c) : (a >> c); }
+  else r = shl ? (a << cnt[0]) : (a >> cnt[0]);
+  Result res;
+  res.impl = showVec(r);
+  for (int k = 0; k < 4; ++k) {
+    long x = RawT<V>::at(a, k), e = shl ? (x << cnt[k]) : (x >> cnt[k]);
+    if (RawT<V>::at(r, k) != e) { res.oracle = "FAIL lane " + std::to_string(k) + " of a shift by an int vector"; break; }
+  }
+  return res;
 }
 
 // ------------------------------------------------------------------------------------------------
@@ -863,6 +1282,9 @@ static const std::map<std::string, ExecFn>& vecTable() {
       {name ":4", &execVec<LoopSIMD<T, 4>>}, {name ":8", &execVec<LoopSIMD<T, 8>>},
       DV_FLAT(double, "f64") DV_FLAT(float, "f32") DV_FLAT(int, "i32") DV_FLAT(long, "i64") DV_FLAT(bool, "b")
 #undef DV_FLAT
+      {"f64:3", &execVec<LoopSIMD<double, 3>>}, {"i32:3", &execVec<LoopSIMD<int, 3>>}, {"b:3", &execVec<LoopSIMD<bool, 3>>},
+      {"u32:2", &execVec<LoopSIMD<unsigned, 2>>}, {"u32:4", &execVec<LoopSIMD<unsigned, 4>>}, {"u32:8", &execVec<LoopSIMD<unsigned, 8>>},
+      {"i16:2", &execVec<LoopSIMD<short, 2>>}, {"i16:4", &execVec<LoopSIMD<short, 4>>},
 #define DV_NEST(T, name) \
       {name ":2x2", &execVec<LoopSIMD<LoopSIMD<T, 2>, 2>>}, {name ":4x2", &execVec<LoopSIMD<LoopSIMD<T, 2>, 4>>}, \
       {name ":2x4", &execVec<LoopSIMD<LoopSIMD<T, 4>, 2>>},
@@ -879,27 +1301,66 @@ static Result exec(const std::string& line) {
   const std::string& kind = w[0];
   stat("kind_" + kind);
   if (kind == "mat") {
-    // mat <what> <S> <n> <piv> <A> [<b|B>]
-    const std::string& what = w.at(1);
-    int S = std::stoi(w.at(2)), n = std::stoi(w.at(3));
-    bool piv = w.at(4) == "1";
-    auto ta = listToks(w.at(5));
-    std::vector<std::string> tb;
-    if (w.size() > 6) tb = listToks(w[6]);
-    stat("mat_" + what);
-    stat("mat_n" + std::to_string(n));
-    stat("mat_S" + std::to_string(S));
-    Result r;
-    switch (S) {
-      case 1: r = execMatS<1>(what, n, piv, ta, tb); break;
-      case 2: r = execMatS<2>(what, n, piv, ta, tb); break;
-      case 4: r = execMatS<4>(what, n, piv, ta, tb); break;
-      case 8: r = execMatS<8>(what, n, piv, ta, tb); break;
-      default: r.impl = "bad-op"; r.oracle = "ok trivial";
-    }
+    // mat <what> <shape> <n> <piv> <A> [<b|B>]      shape: 1 2 3 4 8 (double), 2x2 (nested double), f4 (float)
+    MatArgs m;
+    m.what = w.at(1);
+    const std::string& shape = w.at(2);
+    m.n = std::stoi(w.at(3));
+    m.piv = w.at(4) == "1";
+    m.ta = listToks(w.at(5));
+    if (w.size() > 6) m.tb = listToks(w[6]);
+    stat("mat_" + m.what);
+    stat("mat_n" + std::to_string(m.n));
+    stat("mat_S" + shape);
+    Result r = execMatShape(shape, m);
     if (r.impl == "ERR:FMatrix") stat("mat_singular_reported");
     return r;
   }
+  if (kind == "rect") {
+    // rect <what> <shape> <r> <c> <A> [<x> <y> <alpha>]
+    RectArgs m;
+    m.what = w.at(1);
+    const std::string& shape = w.at(2);
+    m.r = std::stoi(w.at(3));
+    m.c = std::stoi(w.at(4));
+    m.ta = listToks(w.at(5));
+    if (w.size() > 8) { m.tx = listToks(w[6]); m.ty = listToks(w[7]); m.talpha = listToks(w[8]); }
+    stat("rect_" + m.what);
+    stat("rect_" + std::to_string(m.r) + "x" + std::to_string(m.c));
+    stat("rect_S" + shape);
+    return execRectShape(shape, m);
+  }
+  if (kind == "vec") {
+    // vec <what> <shape> <n> <v> [<w> [<alpha>]]
+    FVecArgs m;
+    m.what = w.at(1);
+    const std::string& shape = w.at(2);
+    m.n = std::stoi(w.at(3));
+    m.tv = listToks(w.at(4));
+    if (w.size() > 5) m.tw = listToks(w[5]);
+    if (w.size() > 6) m.talpha = listToks(w[6]);
+    stat("vec_" + m.what);
+    stat("vec_S" + shape);
+    return execFVecShape(shape, m);
+  }
+  if (kind == "mini") {
+    // mini <what> <T> <S> args
+    const std::string key = w.at(2) + ":" + w.at(3);
+    stat("mini_" + w.at(1));
+    if (key == "b:3") return execMini<bool, 3>(w);
+    if (key == "b:4") return execMini<bool, 4>(w);
+    if (key == "i32:3") return execMini<int, 3>(w);
+    if (key == "f64:4") return execMini<double, 4>(w);
+    return badOp();
+  }
+  if (kind == "cplx") {
+    stat("cplx_" + w.at(1));
+    if (w.at(2) == "2") return execCplx<2>(w);
+    if (w.at(2) == "4") return execCplx<4>(w);
+    return badOp();
+  }
+  if (kind == "realign") return execRealign(w);
+  if (kind == "shiftmix") { Result r = execShiftMix(w); if (r.impl == "invalid") stat("skipped_invalid_int_operands"); return r; }
   if (kind == "reds") {
     // reductions of the scalar bool "vector" (standard.hh)
     const std::string& what = w.at(1);
@@ -956,6 +1417,29 @@ static std::string tokF(float x) { return Cod<float>::show(x); }
 static std::string genScalar(Rng& rng, const std::string& T, int flavour) {
   // flavour 0: anything; 1: small (safe for arithmetic); 2: shift counts
   if (T == "b") return rng.coin() ? "1" : "0";
+  if (T == "u32") {
+    if (flavour == 2) return std::to_string(rng.coin(1, 8) ? rng.range(30, 34) : rng.range(0, 31));
+    if (rng.coin(1, 2)) { static const std::vector<long> small = {0, 1, 2, 3, 7, 10, 255, 256, 65535, 65536}; return std::to_string(rng.coin() ? rng.pick(small) : rng.range(0, 50)); }
+    switch (rng.below(5)) {
+      case 0: return "4294967295";
+      case 1: return "4294967294";
+      case 2: return "2147483648";
+      case 3: return "2147483647";
+      default: return std::to_string((unsigned)rng.next());
+    }
+  }
+  if (T == "i16") {
+    if (flavour == 2) return std::to_string(rng.coin(1, 8) ? rng.range(-1, 33) : rng.range(0, 31));
+    if (flavour == 1) return std::to_string(rng.coin() ? rng.range(0, 50) : rng.range(0, 32767));
+    if (rng.coin(1, 2)) return std::to_string(rng.range(-50, 50));
+    switch (rng.below(5)) {
+      case 0: return "32767";
+      case 1: return "-32768";
+      case 2: return "-32767";
+      case 3: return "16384";
+      default: return std::to_string((short)rng.next());
+    }
+  }
   if (T == "i32" || T == "i64") {
     const bool is32 = T == "i32";
     if (flavour == 2) return std::to_string(rng.coin(1, 8) ? rng.range(-1, is32 ? 33 : 65) : rng.range(0, is32 ? 31 : 63));
@@ -1070,13 +1554,30 @@ static void genLaneMatrix(Rng& rng, int n, std::vector<double>& m, std::string& 
   }
 }
 
+static std::size_t shapeLanesM(const std::string& shape) { return shape == "f4" ? 4 : shapeLanes(shape); }
+static std::string tokNum(double x) {
+  return (x == std::floor(x) && std::fabs(x) < 1e15 && !(x == 0 && std::signbit(x))) ? std::to_string((long long)x) : tokD(x);
+}
+// small-integer SIMD values (exact in float and double), occasionally a special value
+static std::string genSmallLanes(Rng& rng, std::size_t count) {
+  std::vector<std::string> t;
+  for (std::size_t i = 0; i < count; ++i) t.push_back(std::to_string(rng.range(-9, 9)));
+  return listStr(t);
+}
+
 static std::string genMat(Rng& rng, const Args& a) {
-  static const std::vector<std::string> whats = {"det", "det", "det", "solve", "solve", "inv", "inv", "mv", "mm", "fnorm2", "infnorm"};
+  static const std::vector<std::string> whats = {"det", "det", "det", "solve", "solve", "inv", "inv", "mv", "mm", "lmm", "fnorm2", "infnorm"};
   std::string what = rng.pick(whats);
-  static const std::vector<int> Ss = {1, 2, 4, 8};
-  int S = rng.pick(Ss);
-  int n = (int)rng.range(1, 6);
-  if ((what == "det" || what == "solve" || what == "inv") && rng.coin(2, 3)) n = (int)rng.range(4, 6);
+  static const std::vector<std::string> shapes = {"1", "2", "2", "3", "4", "4", "8", "2x2", "2x2", "f4"};
+  const std::string shape = rng.pick(shapes);
+  const int S = (int)shapeLanesM(shape);
+  const std::vector<int>& sizes = matTable().at(shape);
+  int n = rng.pick(sizes);
+  if ((what == "det" || what == "solve" || what == "inv") && rng.coin(2, 3)) {  // prefer the LU path
+    std::vector<int> big;
+    for (int k : sizes) if (k >= 4) big.push_back(k);
+    if (!big.empty()) n = rng.pick(big);
+  }
   bool piv = !rng.coin(1, 5);
   std::vector<std::vector<double>> lanes(S);
   // lane mix: independent recipes; often force "some lanes singular, some regular"
@@ -1085,40 +1586,132 @@ static std::string genMat(Rng& rng, const Args& a) {
     for (int l = 1; l < S; ++l) lanes[l] = lanes[0];
     std::string rec; genLaneMatrix(rng, n, lanes[rng.below(S)], rec);
   }
-  if (rng.coin(1, 25)) {  // a non-finite entry in one lane
+  if (rng.coin(1, 25) && shape != "f4") {  // a non-finite entry in one lane
     static const std::vector<double> nf = {INFINITY, -INFINITY, NAN, 1e308, -1e308, 5e-324};
     lanes[rng.below(S)][rng.below(n * n)] = rng.pick(nf);
     stat("matrix_with_nonfinite_entry");
   }
-  std::vector<std::string> ta;
-  auto tok = [](double x) { return (x == std::floor(x) && std::fabs(x) < 1e15 && !(x == 0 && std::signbit(x))) ? std::to_string((long long)x) : tokD(x); };
-  for (int i = 0; i < n; ++i) for (int j = 0; j < n; ++j) for (int l = 0; l < S; ++l) ta.push_back(tok(lanes[l][i * n + j]));
-  std::string line = "mat " + what + " " + std::to_string(S) + " " + std::to_string(n) + " " + (piv ? "1" : "0") + " " + listStr(ta);
-  if (what == "solve" || what == "mv") {
-    std::vector<std::string> tb;
-    for (int i = 0; i < n; ++i) for (int l = 0; l < S; ++l) tb.push_back(std::to_string(rng.range(-9, 9)));
-    line += " " + listStr(tb);
-  } else if (what == "mm") {
-    std::vector<std::string> tb;
-    for (int i = 0; i < n * n * S; ++i) tb.push_back(std::to_string(rng.range(-9, 9)));
-    line += " " + listStr(tb);
+  if (shape == "f4") {  // values must be floats: keep the exactly representable ones
+    for (auto& L : lanes) for (auto& x : L) x = (double)(float)x;
+    if (rng.coin(1, 25)) { static const std::vector<std::string> nf = {"x7f800000", "xff800000", "x7fc00000", "x00000001"}; (void)nf; }
   }
+  std::vector<std::string> ta;
+  for (int i = 0; i < n; ++i) for (int j = 0; j < n; ++j) for (int l = 0; l < S; ++l) {
+    double x = lanes[l][i * n + j];
+    ta.push_back(shape == "f4" ? ((x == std::floor(x) && std::fabs(x) < 1e6 && !(x == 0 && std::signbit(x))) ? std::to_string((long long)x) : tokF((float)x)) : tokNum(x));
+  }
+  std::string line = "mat " + what + " " + shape + " " + std::to_string(n) + " " + (piv ? "1" : "0") + " " + listStr(ta);
+  if (what == "solve" || what == "mv") line += " " + genSmallLanes(rng, (std::size_t)n * S);
+  else if (what == "mm" || what == "lmm") line += " " + genSmallLanes(rng, (std::size_t)n * n * S);
   (void)a;
+  return line;
+}
+
+// one lane value for the product / norm cases: mostly small integers, sometimes +-0, inf, NaN, huge, tiny
+static std::string genEntry(Rng& rng, bool f32) {
+  if (!rng.coin(1, 12)) return std::to_string(rng.range(-9, 9));
+  if (f32) { static const std::vector<std::string> sp = {"x80000000", "x7f800000", "xff800000", "x7fc00000", "x7f7fffff", "x00000001", "x3f000000", "x3eaaaaab"}; return rng.pick(sp); }
+  static const std::vector<std::string> sp = {"x8000000000000000", "x7ff0000000000000", "xfff0000000000000", "x7ff8000000000000", "x7fefffffffffffff",
+                                              "x0000000000000001", "x3fe0000000000000", "x3fd5555555555555", "x3cb0000000000000"};
+  return rng.pick(sp);
+}
+static std::string genEntries(Rng& rng, std::size_t count, bool f32) {
+  std::vector<std::string> t;
+  for (std::size_t i = 0; i < count; ++i) t.push_back(genEntry(rng, f32));
+  return listStr(t);
+}
+
+static std::string genRect(Rng& rng) {
+  static const std::vector<std::string> whats = {"mv", "mtv", "umv", "umtv", "mmv", "mmtv", "usmv", "usmtv", "fnorm2", "fnorm", "infnorm", "infnormr"};
+  const std::string what = rng.pick(whats);
+  const std::string shape = rng.pick(rectShapes());
+  const std::size_t S = shapeLanesM(shape);
+  const bool f32 = shape == "f4";
+  auto rc = rng.pick(rectSizes());
+  std::string line = "rect " + what + " " + shape + " " + std::to_string(rc.first) + " " + std::to_string(rc.second) + " " + genEntries(rng, rc.first * rc.second * S, f32);
+  if (what.find("norm") != std::string::npos) return line;
+  const bool transposed = what == "mtv" || what == "umtv" || what == "mmtv" || what == "usmtv";
+  const int nx = transposed ? rc.first : rc.second, ny = transposed ? rc.second : rc.first;
+  return line + " " + genEntries(rng, nx * S, f32) + " " + genEntries(rng, ny * S, f32) + " " + genEntries(rng, S, f32);
+}
+
+static std::string genFVec(Rng& rng) {
+  static const std::vector<std::string> whats = {"one", "oner", "two2", "two", "inf", "infr", "dot", "axpy"};
+  const std::string what = rng.pick(whats);
+  const std::string shape = rng.pick(rectShapes());
+  const std::size_t S = shapeLanesM(shape);
+  const bool f32 = shape == "f4";
+  const int n = rng.pick(fvecSizes());
+  std::string line = "vec " + what + " " + shape + " " + std::to_string(n) + " " + genEntries(rng, n * S, f32);
+  if (what == "dot" || what == "axpy") line += " " + genEntries(rng, n * S, f32);
+  if (what == "axpy") line += " " + genEntries(rng, S, f32);
+  return line;
+}
+
+static std::string genMini(Rng& rng) {
+  static const std::vector<std::pair<std::string, std::size_t>> types = {{"b", 3}, {"b", 4}, {"i32", 3}, {"f64", 4}};
+  auto ts = rng.pick(types);
+  const std::string& T = ts.first;
+  const std::size_t n = ts.second;
+  const std::string head = " " + T + " " + std::to_string(n) + " ";
+  if (T == "b" && rng.coin(2, 3)) {
+    static const std::vector<std::string> rs = {"anyTrue", "allTrue", "anyFalse", "allFalse"};
+    std::vector<std::string> m(n, rng.coin() ? "1" : "0");
+    int mode = (int)rng.below(4);
+    if (mode == 1) m[rng.below(n)] = m[0] == "1" ? "0" : "1";
+    if (mode == 2) for (auto& x : m) x = rng.coin() ? "1" : "0";
+    if (mode == 3) m[n - 1] = m[0] == "1" ? "0" : "1";
+    return "mini " + rng.pick(rs) + head + listStr(m);
+  }
+  switch (rng.below(6)) {
+    case 0: return "mini mask" + head + genVec(rng, T, n, 0);
+    case 1: return "mini maskor" + head + genVec(rng, T, n, 0) + " " + genVec(rng, T, n, 0);
+    case 2: return "mini maskand" + head + genVec(rng, T, n, 0) + " " + genVec(rng, T, n, 0);
+    case 3: return std::string("mini ") + (rng.coin() ? "hmax" : "hmin") + head + genVec(rng, T, n, 0);
+    case 4: return "mini bcast" + head + genScalar(rng, T, 0);
+    default: return "mini implcast" + head + genVec(rng, T, n, 0);
+  }
+}
+
+static std::string genCplx(Rng& rng) {
+  static const std::vector<std::string> whats = {"real", "imag", "real", "imag", "neg", "add", "sub", "eq", "ne"};
+  const std::string what = rng.pick(whats);
+  const std::size_t S = rng.coin() ? 2 : 4;
+  std::string A = genVec(rng, "f64", 2 * S, 0);
+  std::string line = "cplx " + what + " " + std::to_string(S) + " " + A;
+  if (what == "add" || what == "sub" || what == "eq" || what == "ne") line += " " + (rng.coin(1, 4) ? A : genVec(rng, "f64", 2 * S, 0));
   return line;
 }
 
 static std::string propose(Rng& rng, const Args& a) {
   int sel = (int)rng.below(100);
-  if (sel < 30) return genMat(rng, a);
-  static const std::vector<std::string> Ts = {"f64", "f64", "f32", "i32", "i32", "i64", "b"};
+  if (sel < 24) return genMat(rng, a);
+  if (sel < 30) return genRect(rng);
+  if (sel < 33) return genFVec(rng);
+  if (sel < 36) return genMini(rng);
+  if (sel < 37) {
+    switch (rng.below(4)) {
+      case 0: case 1: return genCplx(rng);
+      case 2: return "realign " + genVec(rng, "f64", 4, 0) + " " + genVec(rng, "f64", 4, 0);
+      default: {
+        const bool vv = rng.coin();
+        return std::string("shiftmix ") + (rng.coin() ? "shl" : "shr") + " " + (vv ? "vv" : "vs") + " " + genVec(rng, "i64", 4, 1) + " "
+               + (vv ? genVec(rng, "i64", 4, 2) : genScalar(rng, "i64", 2));
+      }
+    }
+  }
+  static const std::vector<std::string> Ts = {"f64", "f64", "f64", "f32", "f32", "i32", "i32", "i32", "i64", "i64", "b", "b", "u32", "i16"};
   static const std::vector<std::string> flat = {"1", "2", "4", "8"};
   static const std::vector<std::string> nested = {"2x2", "4x2", "2x4"};
   std::string T = rng.pick(Ts);
   std::string shape = rng.pick(flat);
-  if ((T == "f64" || T == "i32" || T == "b") && rng.coin(1, 4)) shape = rng.pick(nested);
+  if (T == "f64" || T == "i32" || T == "b") { if (rng.coin(1, 4)) shape = rng.pick(nested); else if (rng.coin(1, 6)) shape = "3"; }
+  if (T == "u32") { static const std::vector<std::string> sh = {"2", "4", "8"}; shape = rng.pick(sh); }
+  if (T == "i16") shape = rng.coin() ? "2" : "4";
   std::size_t n = shapeLanes(shape);
   const std::string head = " " + T + " " + shape + " ";
-  if (sel < 55) {  // binary operators
+  const bool isInt = T == "i32" || T == "i64" || T == "u32" || T == "i16";
+  if (sel < 58) {  // binary operators
     static const std::vector<std::string> ops = {"add", "sub", "mul", "div", "mod", "band", "bor", "bxor", "shl", "shr", "lt", "gt", "le", "ge", "eq", "ne",
                                                  "land", "lor", "max", "min", "maskor", "maskand"};
     std::string op = rng.pick(ops);
@@ -1127,29 +1720,29 @@ static std::string propose(Rng& rng, const Args& a) {
     if (op == "max" || op == "min" || op == "maskor" || op == "maskand") form = "vv";
     if ((op == "shl" || op == "shr") && form == "sv") form = "vs";
     int fa = 0, fb = 0;
-    if (T == "i32" || T == "i64") { if (op == "add" || op == "sub" || op == "mul") { if (rng.coin(3, 4)) fa = fb = 1; } if (op == "shl" || op == "shr") { fb = 2; if (op == "shl") fa = 1; } }
+    if (isInt) { if ((op == "add" || op == "sub" || op == "mul") && (T == "i32" || T == "i64")) { if (rng.coin(3, 4)) fa = fb = 1; } if (op == "shl" || op == "shr") { fb = 2; if (op == "shl" && T != "u32") fa = 1; } }
     std::string A = form == "sv" ? genScalar(rng, T, fa) : genVec(rng, T, n, fa);
     std::string B = form == "vs" ? genScalar(rng, T, fb) : genVec(rng, T, n, fb);
     if (form == "vv" && rng.coin(1, 6)) B = A;  // equal operands
     return "bin" + head + form + " " + op + " " + A + " " + B;
   }
-  if (sel < 65) {  // compound assignment
+  if (sel < 67) {  // compound assignment
     static const std::vector<std::string> ops = {"add", "sub", "mul", "div", "mod", "band", "bor", "bxor", "shl", "shr"};
     std::string op = rng.pick(ops);
     std::string form = rng.coin() ? "vv" : "vs";
     int fa = 0, fb = 0;
-    if (T == "i32" || T == "i64") { if (op == "add" || op == "sub" || op == "mul") { if (rng.coin(3, 4)) fa = fb = 1; } if (op == "shl" || op == "shr") { fb = 2; if (op == "shl") fa = 1; } }
+    if (isInt) { if ((op == "add" || op == "sub" || op == "mul") && (T == "i32" || T == "i64")) { if (rng.coin(3, 4)) fa = fb = 1; } if (op == "shl" || op == "shr") { fb = 2; if (op == "shl" && T != "u32") fa = 1; } }
     std::string A = genVec(rng, T, n, fa);
     std::string B = form == "vs" ? genScalar(rng, T, fb) : genVec(rng, T, n, fb);
     return "asg" + head + form + " " + op + " " + A + " " + B;
   }
-  if (sel < 73) {  // unary
+  if (sel < 75) {  // unary
     static const std::vector<std::string> ops = {"pos", "neg", "bnot", "lnot", "preinc", "predec", "postinc", "postdec", "mask", "isNaN", "isInf", "isFinite"};
     return "un" + head + rng.pick(ops) + " " + genVec(rng, T, n, 0);
   }
-  if (sel < 80) {  // math functions (floating point only); the table of the scalar function is part of the op line
-    if (T != "f64" && T != "f32") T = rng.coin() ? "f64" : "f32";
-    if (T == "f32" && shape.find('x') != std::string::npos) shape = "4";
+  if (sel < 81) {  // math functions (floating point only); the table of the scalar function is part of the op line
+    if (T != "f64" && T != "f32") { T = rng.coin() ? "f64" : "f32"; if (shape == "3") shape = "4"; }
+    if (T == "f32" && (shape.find('x') != std::string::npos || shape == "3")) shape = "4";
     n = shapeLanes(shape);
     std::string fn = rng.pick(mathNames());
     std::string A = genVec(rng, T, n, rng.coin() ? 1 : 0);
@@ -1163,8 +1756,8 @@ static std::string propose(Rng& rng, const Args& a) {
     }
     return "math " + T + " " + shape + " " + fn + " " + A + " " + "{" + join(tab.begin(), tab.end(), ",") + "}";
   }
-  if (sel < 84) return "lane" + head + std::to_string(rng.below(n)) + " " + genVec(rng, T, n, 0);
-  if (sel < 86) return "setlane" + head + std::to_string(rng.below(n)) + " " + genScalar(rng, T, 0) + " " + genVec(rng, T, n, 0);
+  if (sel < 85) return "lane" + head + std::to_string(rng.below(n)) + " " + genVec(rng, T, n, 0);
+  if (sel < 87) return "setlane" + head + std::to_string(rng.below(n)) + " " + genScalar(rng, T, 0) + " " + genVec(rng, T, n, 0);
   if (sel < 91) {
     if (rng.coin(1, 6)) return "condb" + head + (rng.coin() ? "1" : "0") + " " + genVec(rng, T, n, 0) + " " + genVec(rng, T, n, 0);
     return "cond" + head + genVec(rng, "b", n, 0) + " " + genVec(rng, T, n, 0) + " " + genVec(rng, T, n, 0);
@@ -1172,7 +1765,7 @@ static std::string propose(Rng& rng, const Args& a) {
   if (sel < 95) {
     static const std::vector<std::string> rs = {"anyTrue", "allTrue", "anyFalse", "allFalse"};
     if (rng.coin(1, 10)) return "reds " + rng.pick(rs) + " " + (rng.coin() ? "1" : "0");
-    std::string shp = rng.coin(1, 4) ? rng.pick(nested) : rng.pick(flat);
+    std::string shp = rng.coin(1, 4) ? rng.pick(nested) : (rng.coin(1, 5) ? std::string("3") : rng.pick(flat));
     std::size_t k = shapeLanes(shp);
     // masks that are all true / all false / differ in exactly one lane are the interesting ones
     std::vector<std::string> m(k, rng.coin() ? "1" : "0");
